@@ -25,17 +25,24 @@ HOLDERS = ["Simulator", "Sampler", "QuickSampler", "Analyzer", "Reck", "StateTom
 
 
 def modeswaps_precondition(ctx, fi, callnode):
-    """Exception-table precondition for Circuit.add -> ModeSwaps(swaps): the argument is built in
-    the preceding loop as a bijection on range(n): every key stored is the loop variable of a
-    `for <i> in range(...)`, every value is `<table>[<i>]` of the provisional table or the
-    free-mode counter that skips the table's values."""
+    """Exception-table precondition for Circuit.add -> ModeSwaps(swaps): the argument is built as a
+    bijection on range(n): every key stored is the loop variable of a `for <i> in range(...)`, every value is
+    `<table>[<i>]` of the provisional table or the free-mode counter that skips the table's values.  The builder
+    may live in `add` itself or in a helper method whose result is passed on."""
     call = callnode
     if not (isinstance(call, ast.Call) and call.args and isinstance(call.args[0], ast.Name)):
-        return "argument of ModeSwaps is not a plain local"
+        return "unrecognised: argument of ModeSwaps is not a plain local"
     name = call.args[0].id
-    stores = []
-    loops = {}
-    for n in walk_no_nested(fi.node):
+    fn = fi.node
+    defs = [a.value for a in walk_no_nested(fn) if isinstance(a, ast.Assign) and len(a.targets) == 1 and src(a.targets[0]) == name]
+    for d in defs:
+        if isinstance(d, ast.Call) and isinstance(d.func, ast.Attribute) and src(d.func.value) in ("self", fi.cls.name) and d.func.attr in fi.cls.methods:
+            helper = fi.cls.methods[d.func.attr]
+            rets = [r.value for r in walk_no_nested(helper.node) if isinstance(r, ast.Return) and r.value is not None]
+            if len(rets) == 1 and isinstance(rets[0], ast.Name):
+                fn, name = helper.node, rets[0].id
+    stores, loops = [], {}
+    for n in walk_no_nested(fn):
         if isinstance(n, ast.For):
             for m in ast.walk(n):
                 if isinstance(m, ast.Assign) and isinstance(m.targets[0], ast.Subscript) and isinstance(m.targets[0].value, ast.Name) and m.targets[0].value.id == name:
@@ -46,7 +53,7 @@ def modeswaps_precondition(ctx, fi, callnode):
             if n not in stores:
                 stores.append(n)
     if not stores:
-        return f"no store into {name} found"
+        return f"unrecognised: no store into {name} found"
     for st in stores:
         loop = loops.get(id(st))
         if loop is None or not (isinstance(loop.iter, ast.Call) and isinstance(loop.iter.func, ast.Name) and loop.iter.func.id == "range" and isinstance(loop.target, ast.Name)):
